@@ -104,8 +104,7 @@ fn case(w: &[&str]) -> Option<String> {
         v.sort();
     }
     let tiff: Vec<u8> = vec![b'I', b'I', 42, 0, 8, 0, 0, 0, 0, 0, 0, 0, 0, 0];
-    let xmp: &[u8] = b"<x:xmpmeta xmlns:x=\"adobe:ns:meta/\"></x:xmpmeta>";
-    let mut spec = JpegSpec {
+    let spec = JpegSpec {
         width: bw * 8,
         height: bh * 8,
         quant: default_quant(),
@@ -116,10 +115,23 @@ fn case(w: &[&str]) -> Option<String> {
         jfif: rng.next() % 4 != 0,
         exif_app1: if meta.contains('e') { Some(tiff.clone()) } else { None },
         comment: if meta.contains('c') { Some(b"verif c17".to_vec()) } else { None },
+        progressive: false,
+        scan_params: Vec::new(),
+        restart_interval: 0,
+        tables: None,
+        dht_split: false,
+        forced_resets: Vec::new(),
     };
+    finish(spec, rng, pad, meta, feed)
+}
+
+/// padding bits, container, decode, compare
+fn finish(mut spec: JpegSpec, mut rng: Rng, pad: &str, meta: &str, feed: &str) -> Option<String> {
+    let tiff: Vec<u8> = vec![b'I', b'I', 42, 0, 8, 0, 0, 0, 0, 0, 0, 0, 0, 0];
+    let xmp: &[u8] = b"<x:xmpmeta xmlns:x=\"adobe:ns:meta/\"></x:xmpmeta>";
     // padding: needs per flush come from a first pass with default padding
     let (_, needs) = write_jpeg(&spec);
-    spec.padding = match *pad {
+    spec.padding = match pad {
         "d" => None,
         "z" => Some(needs.iter().flat_map(|&k| std::iter::repeat_n(0u8, k as usize)).collect()),
         "a" => Some(
@@ -146,7 +158,7 @@ fn case(w: &[&str]) -> Option<String> {
     let exif_box = (meta.contains('e') || meta.contains('E')).then_some(&tiff[..]);
     let xml_box = meta.contains('x').then_some(xmp);
     let container = write_container(&spec, exif_box, xml_box);
-    if *feed == "emit" {
+    if feed == "emit" {
         // the files themselves, for other checks: `emit <container hex> <jpeg hex>`
         return Some(format!("emit {} {}", hex(&container), hex(&expected)));
     }
@@ -163,11 +175,190 @@ fn case(w: &[&str]) -> Option<String> {
         return Some(format!("err reconstruct-{}", err_class(&*e)));
     }
     if out == expected {
-        Some(format!("ok {}", out.len()))
+        let j = write_jpeg_ex(&spec);
+        Some(format!(
+            "ok {} scans={} flushes={} early-run-ends={}",
+            out.len(),
+            spec.scans.len(),
+            j.pad_needs.len(),
+            j.reset_points.iter().map(|r| r.len()).sum::<usize>()
+        ))
     } else {
         let at = out.iter().zip(&expected).position(|(a, b)| a != b).unwrap_or(out.len().min(expected.len()));
         Some(format!("diff at={} got={} want={}", at, out.len(), expected.len()))
     }
+}
+
+/// A seeded progressive scan script: `(components, ss, se, ah, al)` in a valid order, every bit of
+/// every coefficient sent exactly once.
+fn random_script(rng: &mut Rng) -> Vec<(Vec<usize>, u8, u8, u8, u8)> {
+    // per "lane" (DC of some components, or an AC band of one component) the scans top down
+    let mut lanes: Vec<Vec<(Vec<usize>, u8, u8, u8, u8)>> = Vec::new();
+    let dc_al = (rng.next() % 3) as u8;
+    let dc_groups: Vec<Vec<usize>> = match rng.next() % 3 {
+        0 => vec![vec![0, 1, 2]],
+        1 => vec![vec![0], vec![1, 2]],
+        _ => vec![vec![0], vec![1], vec![2]],
+    };
+    let mut first: Vec<(Vec<usize>, u8, u8, u8, u8)> = Vec::new();
+    for g in &dc_groups {
+        first.push((g.clone(), 0, 0, 0, dc_al));
+        let mut lane = Vec::new();
+        for al in (0..dc_al).rev() {
+            lane.push((g.clone(), 0, 0, al + 1, al));
+        }
+        lanes.push(lane);
+    }
+    for c in 0..3usize {
+        // cut 1..=63 into 1..3 bands
+        let mut cuts = vec![1u8, 64];
+        for _ in 0..rng.next() % 3 {
+            let k = 2 + (rng.next() % 62) as u8;
+            if !cuts.contains(&k) {
+                cuts.push(k);
+            }
+        }
+        cuts.sort();
+        for w in cuts.windows(2) {
+            let (ss, se) = (w[0], w[1] - 1);
+            let al0 = (rng.next() % 4) as u8;
+            let mut lane = vec![(vec![c], ss, se, 0, al0)];
+            for al in (0..al0).rev() {
+                lane.push((vec![c], ss, se, al + 1, al));
+            }
+            lanes.push(lane);
+        }
+    }
+    // DC first scans first, then a seeded merge of the lanes
+    let mut out = first;
+    let mut pos = vec![0usize; lanes.len()];
+    loop {
+        let open: Vec<usize> = (0..lanes.len()).filter(|&i| pos[i] < lanes[i].len()).collect();
+        if open.is_empty() {
+            break;
+        }
+        let i = open[(rng.next() % open.len() as u64) as usize];
+        out.push(lanes[i][pos[i]].clone());
+        pos[i] += 1;
+    }
+    out
+}
+
+/// `pjpeg <seed> <bw> <bh> <script> <ri> <tables> <style> <resets> <pad> <feed>`
+///  script: `b` baseline interleaved | `bs` baseline, one scan per component | `A` progressive, spectral
+///          selection only | `B` progressive with successive approximation (the IJG default script) |
+///          `R` seeded progressive script
+///  ri: restart interval in MCUs (0: none) · tables: `k` Annex K (baseline only) | `c` seeded | `cs` seeded, one DHT each
+///  style: `n` photo-like | `e` hardly any AC coefficient (end-of-band runs beyond 32767 in large images) | `q` dense blocks of multiples of 4 (long correction-bit runs) | `z` mostly empty blocks (long end-of-band runs)
+///  resets: number of blocks before which the original encoder ended an end-of-band run early
+fn pcase(w: &[&str]) -> Option<String> {
+    let [seed, bw, bh, script, ri, tables, style, resets, pad, feed] = w else { return None };
+    let seed: u64 = seed.parse().ok()?;
+    let (bw, bh): (usize, usize) = (bw.parse().ok()?, bh.parse().ok()?);
+    if bw == 0 || bh == 0 || bw > 256 || bh > 256 {
+        return None;
+    }
+    let n = bw * bh;
+    let mut rng = Rng(seed.wrapping_mul(0x9e3779b97f4a7c15) | 1);
+    let mut blocks = [random_blocks(seed, n), random_blocks(seed + 100, n), random_blocks(seed + 200, n)];
+    match *style {
+        "n" => {}
+        "q" => {
+            for comp in blocks.iter_mut() {
+                for b in comp.iter_mut() {
+                    for (k, v) in b.iter_mut().enumerate().skip(1) {
+                        let r = rng.next();
+                        let mag = 4 * (1 + (r >> 8) % 6) as i16;
+                        *v = if k > 60 && r % 7 == 0 { 0 } else if r >> 40 & 1 == 0 { mag } else { -mag };
+                    }
+                }
+            }
+        }
+        "e" => {
+            // no AC coefficient at all but in a few blocks: end-of-band runs longer than 32767
+            for comp in blocks.iter_mut() {
+                for (i, b) in comp.iter_mut().enumerate() {
+                    if i % 34000 != 33999 {
+                        for v in b[1..].iter_mut() {
+                            *v = 0;
+                        }
+                    }
+                }
+            }
+        }
+        "z" => {
+            for comp in blocks.iter_mut() {
+                for b in comp.iter_mut() {
+                    if rng.next() % 16 != 0 {
+                        for v in b[1..].iter_mut() {
+                            *v = 0;
+                        }
+                    }
+                }
+            }
+        }
+        _ => return None,
+    }
+    let script: Vec<(Vec<usize>, u8, u8, u8, u8)> = match *script {
+        "b" => vec![(vec![0, 1, 2], 0, 63, 0, 0)],
+        "bs" => vec![(vec![0], 0, 63, 0, 0), (vec![1], 0, 63, 0, 0), (vec![2], 0, 63, 0, 0)],
+        "A" => {
+            let mut v = vec![(vec![0, 1, 2], 0, 0, 0, 0)];
+            for c in 0..3 {
+                v.push((vec![c], 1, 5, 0, 0));
+            }
+            for c in [2, 0, 1] {
+                v.push((vec![c], 6, 63, 0, 0));
+            }
+            v
+        }
+        "B" => vec![
+            (vec![0, 1, 2], 0, 0, 0, 1),
+            (vec![0], 1, 5, 0, 2),
+            (vec![2], 1, 63, 0, 1),
+            (vec![1], 1, 63, 0, 1),
+            (vec![0], 6, 63, 0, 2),
+            (vec![0], 1, 63, 2, 1),
+            (vec![0, 1, 2], 0, 0, 1, 0),
+            (vec![2], 1, 63, 1, 0),
+            (vec![1], 1, 63, 1, 0),
+            (vec![0], 1, 63, 1, 0),
+        ],
+        "R" => random_script(&mut rng),
+        _ => return None,
+    };
+    let progressive = !script.iter().all(|s| (s.1, s.2, s.3, s.4) == (0, 63, 0, 0)) || matches!(script.len(), 10);
+    let tables_spec = match *tables {
+        "k" if !progressive => None,
+        "c" | "cs" => Some(custom_tables(seed)),
+        _ => return None,
+    };
+    let nresets: usize = resets.parse().ok()?;
+    let mut forced_resets = vec![Vec::new(); script.len()];
+    for _ in 0..nresets {
+        let s = (rng.next() % script.len() as u64) as usize;
+        let blocks_in_scan = (n * script[s].0.len()) as u64;
+        forced_resets[s].push((rng.next() % blocks_in_scan) as u32);
+    }
+    let spec = JpegSpec {
+        width: bw * 8,
+        height: bh * 8,
+        quant: default_quant(),
+        blocks,
+        scans: script.iter().map(|s| s.0.clone()).collect(),
+        extra_zero_runs: vec![Vec::new(); script.len()],
+        padding: None,
+        jfif: rng.next() % 4 != 0,
+        exif_app1: None,
+        comment: None,
+        progressive,
+        scan_params: script.iter().map(|s| (s.1, s.2, s.3, s.4)).collect(),
+        restart_interval: ri.parse().ok()?,
+        tables: tables_spec,
+        dht_split: *tables == "cs",
+        forced_resets,
+    };
+    finish(spec, rng, pad, "-", feed)
 }
 
 fn main() {
@@ -178,6 +369,17 @@ fn main() {
             match catch(move || {
                 let r: Vec<&str> = rest.iter().map(|s| s.as_str()).collect();
                 case(&r)
+            }) {
+                Ok(Some(s)) => s,
+                Ok(None) => "bad-op".into(),
+                Err(p) => p,
+            }
+        }
+        ["pjpeg", rest @ ..] => {
+            let rest: Vec<String> = rest.iter().map(|s| s.to_string()).collect();
+            match catch(move || {
+                let r: Vec<&str> = rest.iter().map(|s| s.as_str()).collect();
+                pcase(&r)
             }) {
                 Ok(Some(s)) => s,
                 Ok(None) => "bad-op".into(),
